@@ -38,6 +38,12 @@ for v in l {
 }
 x = m["a"]["b"][0]
 add_key(x, x)
+e = {}
+e[_] = ok
+add_key(ej, e)
+add_key(en, len(e))
+el = []
+add_key(eln, len(el))
 trim(w)
 uppercase(w)
 cast(n, "str")
